@@ -1355,7 +1355,7 @@ class RTCPeerConnection(AsyncIOEventEmitter):
                         "Cannot handle offer in signaling state "
                         f'"{self.signalingState}"'
                     )
-            elif description.type == "answer":
+            elif description.type in ["answer", "pranswer"]:
                 if self.signalingState not in [
                     "have-remote-offer",
                     "have-local-pranswer",
@@ -1371,7 +1371,7 @@ class RTCPeerConnection(AsyncIOEventEmitter):
                         "Cannot handle offer in signaling state "
                         f'"{self.signalingState}"'
                     )
-            elif description.type == "answer":
+            elif description.type in ["answer", "pranswer"]:
                 if self.signalingState not in [
                     "have-local-offer",
                     "have-remote-pranswer",
